@@ -49,6 +49,8 @@ def separate_into_sections(pattern=DEFAULT_SECTION_PATTERN, independent=True, re
     backup = Substitution(report.submission.main_code, report.submission.main_file)
     report[TOOL_NAME]['substitutions'].append(backup)
     report.submission.replace_main(report[TOOL_NAME]['sections'][0])
+    # Whatever was parsed before belongs to the text that was current then
+    report[TOOL_NAME]['success'] = None
 
     report.add_hook('pedal.resolvers.resolve', stop_any_sections)
 
@@ -71,6 +73,8 @@ def stop_sections(report=MAIN_REPORT):
     report.submission.replace_main(old_submission.code, old_submission.filename)
     # The whole file is current again, so lines are no longer shifted
     report.submission.clear_line_offsets()
+    # ... and the parse of the last section is not a parse of the whole file
+    report[TOOL_NAME]['success'] = None
     report[TOOL_NAME]['section_group'] = None
 
 def stop_any_sections(report=MAIN_REPORT):
@@ -112,6 +116,7 @@ def next_section(name="", report=MAIN_REPORT):
     else:
         # The whole file stays current, so lines are no longer shifted
         report.submission.clear_line_offsets()
+        report[TOOL_NAME]['success'] = None
         not_enough_sections(section_number, found)
     report.execute_hooks(TOOL_NAME, 'next_section.after')
 
